@@ -763,7 +763,74 @@ def r11_lifetime_names_are_fresh(ctx):
     ctx.floor('C17.R11', 'canonical lifetimes built in the canonicalize family', n, 2)
 
 
+KEY_OPS = {'get', 'entry', 'insert', 'contains_key', 'get_mut', 'get_index_of', 'contains', 'get_or_insert_with', 'get_by_left', 'get_by_right',
+           'insert_no_overwrite', 'contains_left', 'contains_right', 'get_full', 'insert_full', 'replace'}
+
+
+def _keyed_params(ctx):
+    """rustdoc_ir functions -> the parameter positions (1-based) whose value is used as the key of a map / set operation"""
+    out = {}
+    for b in ctx.fb.bodies(CR):
+        if b.is_promoted or b.nid != b.nroot or b.raw['argc'] < 2:
+            continue
+        defs = None
+        for bb, t in b.calls():
+            c = callee(t) or ''
+            if c.split('::')[-1] not in KEY_OPS or not t.get('aty') or not any(m in t['aty'][0] for m in ('Map<', 'Set<')) or len(t['args']) < 2:
+                continue
+            keys = t['args'][1:3] if 'Bi' in t['aty'][0] and c.endswith('insert') else t['args'][1:2]
+            for a in keys:
+                q = op_place(a)
+                if q is None:
+                    continue
+                defs = defs or Defs(b)
+                _, locs = backward_slice(b, q['l'], defs, through_calls=False)
+                for l in locs | {q['l']}:
+                    if 2 <= l <= b.raw['argc']:
+                        out.setdefault(b.nroot, set()).add(l)
+    return out
+
+
+def r12_both_operands_are_keys(ctx):
+    ctx.rule('C17.R12', 'P9 operand symmetry of the bookkeeping: two types are equivalent when their generic parameters correspond ONE TO ONE, so the '
+             'correspondence has to be checked in both directions: in every equivalence function that registers generic names (directly, or '
+             'through a helper such as an id generator), names taken from the `self` operand AND names taken from the `other` operand are used '
+             'as keys of a map / set lookup. With one map keyed by the self-side name only, `Pair<T, U>` ~ `Pair<A, A>` holds (T->A, U->A) while '
+             '`Pair<A, A>` ~ `Pair<T, U>` does not: the relation is neither symmetric nor injective.')
+    keyed = _keyed_params(ctx)
+    n = 0
+    for b0 in family_bodies(ctx, 'equivalence'):
+        if b0.is_promoted or b0.nid != b0.nroot or b0.raw['argc'] < 2 or not b0.nid.split('::')[-1].lstrip('_').startswith('is_equivalent'):
+            continue
+        sides, where = set(), None
+        for b in [x for x in ctx.fb.bodies_of_item(CR, b0.nroot) if not x.is_promoted and x.nid == x.nroot]:
+            defs = Defs(b)
+            for bb, t in b.calls():
+                c = strip_generics(callee(t) or '')
+                ks = keyed.get(c)
+                if not ks or c == b0.nroot:
+                    continue
+                for k in ks:
+                    if k - 1 >= len(t['args']):
+                        continue
+                    q = op_place(t['args'][k - 1])
+                    if q is None:
+                        continue
+                    sd = _side_of(b, defs, q['l'], list(q.get('p', [])))
+                    if sd:
+                        sides |= sd
+                        where = where or b.loc(bb, t)
+        if not where:
+            continue
+        n += 1
+        ctx.ob('C17.R12', 'both-operands-keyed|%s' % b0.nid.replace(T, ''), sides == {1, 2}, where,
+               '%s registers generic names; names used as lookup keys come from %s' % (b0.nid.split('::')[-2] + '::' + b0.nid.split('::')[-1],
+               'both operands' if sides == {1, 2} else 'the %s operand only: the correspondence is checked in one direction' % ('self' if sides == {1} else 'other')))
+    ctx.floor('C17.R12', 'equivalence functions that register generic names', n, 1)
+
+
 def check(ctx):
+    r12_both_operands_are_keys(ctx)
     r4_bindings_compared_by_equality(ctx)
     r5_no_shortcut_around_recursion(ctx)
     r6_render(ctx)
